@@ -11,4 +11,43 @@ CHECKS = {
     },
 }
 
+_PHASE_NOTE = ("Trusted: Coq 8.16.1 kernel + vm_compute; the hand-written model (coq/theories/Base,Owner,Api,Phase.v) tied to the code by differential "
+               "runs of the real controllers.PhaseReconciler (real boxcutter owner strategies, real preflight checkers, real prober) against the "
+               "harness's recording API server (twin of Api.v: SSA as merge with uid-keyed ownerReferences, at-most-one-controller validation, "
+               "delete preconditions, finalizer-delayed deletion, no-op writes do not bump resourceVersion); scenario printers; Python driver. "
+               "Pass-level atomicity except for the scripted third-party op between read and write.")
+
+CHECKS.update({
+    "C01": {
+        "technique": "Coq theorems: decision-ladder <-> 'permitted' equivalence for all inputs; per-pass 'every write justified / untouched / refusal reported / adoption carried out' for arbitrary store and phase by induction over the object list; + exhaustive adoption table and random phases through the real ReconcilePhase, monitor evaluated on the implementation's requests",
+        "text": "props/C01.v proves the adoption ladder equivalent to the property's predicate for every object state, owner, previous list, collisionProtection, strategy and force flag, and lifts it to whole passes over arbitrary worlds (no write unless absent/controlled/permitted; non-permitted objects byte-identical and unnamed; completed pass refused nothing; collision error only for a refusal; permitted adoption carried out). The real PhaseReconciler is run on the full abstract adoption table and on random multi-object phases with third-party interference; model agreement and the property monitor are evaluated in Coq.",
+        "note": _PHASE_NOTE,
+    },
+    "C02": {
+        "technique": "Coq theorems: adoption only from revision <= owner's; owner-list algebra of ReleaseController+SetControllerReference under the apply merge (exactly one controller, former owners demoted, revision set) for all well-formed owner lists; + differential runs of the real ReconcilePhase with a per-apply monitor",
+        "text": "props/C02.v proves that Adopt implies recorded revision <= the adopter's, and that a permitted adoption leaves exactly one controller (the adopter), all former owners demoted-but-present (native) or replaced (annotation), and the adopter's revision recorded. The real code is run over handover states (previous direct / via remote phase / stale uid / foreign) in both strategies; every apply is checked by the monitor. History-level revision monotonicity over chains of revisions is covered by the ObjectSet/ObjectDeployment-level checks.",
+        "note": _PHASE_NOTE + " Freshness and no-tampering hypotheses as in DESIGN section 9.",
+    },
+    "C05": {
+        "technique": "Coq theorems at API-call granularity with an arbitrary third party between read and write: every teardown request is a precondition-pinned delete of a controlled object or the release patch of a co-owned one; delete takes effect only on the inspected uid+resourceVersion; foreign/unlisted objects untouched; + exhaustive teardown table x interference through the real TeardownPhase",
+        "text": "props/C05.v proves, for any world, phase, strategy and ANY function modelling third-party activity between the uncached read and the write, that teardown only issues deletes of objects controlled in the inspected version carrying exactly its UID/resourceVersion (effective only on that version) or the release patch (owner reference + cache label only); objects owned by others or unlisted are unchanged. The real TeardownPhase is run on the exhaustive ownership x preflight x interference table on a server that enforces preconditions.",
+        "note": _PHASE_NOTE + " The orphan-propagation clause is decided at the ObjectSet level (Teardown short-circuit).",
+    },
+    "C13": {
+        "technique": "Coq theorems about the object collector (permutation invariance, conservation, order, stripping, labels) for all file lists; template stage as a fold over arbitrary iteration order; function-table purity sweep regenerated from the code; differential correspondence of the real render pipeline with repeated renders",
+        "text": "props/C13.v proves permutation invariance (map order cannot matter), conservation (multiset equality), manifest phase order, path-then-document order, control-annotation stripping and package labels for all inputs; generated packages are rendered 20/50 times each through the real pipeline and judged in Coq; the template function table is dumped from the code and swept against the impure names. Three order-dependence defects were found and fixed in /repo (fix: commits 10a6940, 514b770).",
+        "note": "Trusted: Coq kernel + vm_compute, the Go harness (stepwise copy of Deploy's render sequence cross-checked by running the real Deploy), the Python generator as ground-truth oracle. YAML/CEL/template execution are oracles of the model. Map iteration orders are sampled, not enumerated.",
+    },
+    "C17": {
+        "technique": "Coq theorems over all probe lists, objects and CEL oracles (conjunction law, unselected pass, all failures reported, stale never passes, fieldsEqual missing fails, CEL boolean); one clause refuted with witness + partial variants; differential correspondence of the real internal/probing.Parse and pkg/probing with a clause-wise monitor proved sound",
+        "text": "props/C17.v proves the composition laws of Parse for every input. The real Parse, ParseProbes and ParseSelector are run on generated probe lists x unstructured objects (malformed shapes, stale/float/string observedGeneration) and compared with the model in Coq; purity checked by deep comparison. The per-condition staleness clause is refuted for duplicate condition types (known finding, replayed on the real code).",
+        "note": "Trusted: Coq kernel + vm_compute; Go harness (message-to-reason table, index attribution); Python generator/printer. CEL evaluation is an oracle filled from the real NewCELProbe. monitor_sound assumes distinct condition types.",
+    },
+    "C20": {
+        "technique": "Coq theorems over all step sequences of the two-critical-section state machine of RequestManager (induction over the schedule) + differential correspondence of the real RequestManager.Pull driven through linearised schedules (scripted gated pull, accessor under the lock), monitor proved sound; aliasing probed by mutating every returned Files map; -race sample in thorough",
+        "text": "For every schedule the model is proved to keep at most one pull per image in flight, answer each request exactly once at the next Done of its image, hand out pairwise distinct copies and start a fresh pull after a broadcast (props/C20.v). The real code is run on all well-formed schedules up to length 5 (quick) / 7 (thorough) over 3 callers x 2 images plus random ones and compared with the model in Coq.",
+        "note": "Trusted: Coq kernel + vm_compute, Go harness (linearisation via goroutine states + accessor), Python driver. Critical sections assumed atomic; memory-level privacy and race freedom are tested under -race, not proved (partial).",
+    },
+})
+
 NOT_APPLICABLE = {}
